@@ -89,8 +89,10 @@ def obligations(tier, seed):
     obs += _obs(families.c17_math_iterators(), R_MATH, "math", budget_s=90.0)
     if not quick:
         # the same conditions through the whole pipeline
-        obs += _obs(families.c17_two_comparisons(), "format_code:safe=1", "pipe", budget_s=120.0)
-        obs += _obs(families.c17_constrained_range("quick"), "format_code:safe=1", "pipe", budget_s=120.0)
+        obs += _obs(list(families.c17_two_comparisons())[::3], "format_code:safe=1", "pipe", budget_s=60.0)
+        obs += _obs(list(families.c17_constrained_range("quick"))[::3], "format_code:safe=1", "pipe", budget_s=60.0)
+        obs += _obs(families.c17_math_iterators(), "format_code:safe=1", "pipe", budget_s=60.0)
+        obs += _obs(families.c17_singleton_eq(), "format_code:safe=1", "pipe", budget_s=60.0)
     return obs
 
 
